@@ -137,6 +137,18 @@ mzd_t *mzd_from_png(const char *fn, int verbose) {
     goto from_png_destroy_read_struct;
   }
 
+  if (bit_depth != 1) {
+    /* the row buffer below holds n bits */
+    if (verbose) printf("only 1-bit images are supported.\n");
+    goto from_png_destroy_read_struct;
+  }
+
+  if (m > 0x7fffffffu || n > 0x7fffffffu - (m4ri_radix - 1)) {
+    /* mzd_init takes int dimensions and rounds ncols up to a multiple of m4ri_radix */
+    if (verbose) printf("image too large.\n");
+    goto from_png_destroy_read_struct;
+  }
+
   A                      = mzd_init(m, n);
   const word bitmask_end = A->high_bitmask;
   png_bytep row          = m4ri_mm_calloc(sizeof(char), n / 8 + 1);
